@@ -578,6 +578,9 @@ def synthesize(update_working_block=True, merge_io_vectors=True, block=None):
         for orig_mem, temp_mem in block_in.mem_map.items():
             if temp_mem in out_mems:
                 block_out.mem_map[orig_mem] = out_mems[temp_mem]
+        # an rtl_assert wire is a 1-bit Output: the synthesized block asserts the same
+        for temp_wire, exp in block_in.rtl_assert_dict.items():
+            block_out.rtl_assert_dict[block_out.io_map[orig_io_map[temp_wire]][0]] = exp
 
     if update_working_block:
         set_working_block(block_out, no_sanity_check=True)
